@@ -525,7 +525,8 @@ S4_ASSUME = {
  "C09": ["scipy detrend / tukey / butter / sosfiltfilt opaque (A-DETREND, A-TUKEY, A-SOSFILTFILT)"],
  "C10": ["scipy detrend / tukey / butter / sosfiltfilt opaque (A-DETREND, A-TUKEY, A-SOSFILTFILT)"],
  "C11": ["A-NP-MASK", "A-CONCAT: np.concatenate / np.array of a list of selections is their concatenation in list order (_flatten_list itself is proved)",
-         "weighted estimators opaque in the accessor proofs (formulas: the statistics.py contracts)", "_compute_statistical_weights is one array per object state (content: its own contract)", "np.cov(aweights) opaque"],
+         "weighted estimators opaque in the accessor proofs (formulas: the statistics.py contracts)", "_compute_statistical_weights is one array per object state (content: its own contract)", "np.cov(aweights) opaque",
+         "HvsrTraditional.mean_curve_peak raises ValueError exactly under the named condition 'the mean curve has no peak in the range' (its behaviour: C08) in the per-azimuth peak table"],
  "C12": ["np.savetxt / np.loadtxt / json.dumps / json.loads / open opaque: the models record what they are handed resp. return 'the file's array / dictionary'", "strings opaque; the title line has one entry per column (A-TEXT-ROUNDTRIP)",
          "the azimuth in a column title is an uninterpreted function of the column (A-RE)", "update_peaks_bounded on the freshly read object: range / filters recorded, masks afterwards unknown (contract: C08)",
          "type invariant of per-azimuth objects (vectors / masks / rows have one entry per curve, one column per frequency)", "A-INDUCTION for the column offsets",
@@ -539,7 +540,9 @@ S4_ASSUME = {
  "C18": ["json / open opaque", "np.allclose an opaque predicate of its two operands and tolerances; == between library objects is the left operand's __eq__ (an opaque predicate of the two objects in the container proofs)"],
  "C19": ["hvsrpy.read / preprocess / process / write_hvsr_object_to_file opaque stages (their contracts: C07, C10/C17, C01..C05, C12)", "deepcopy preserves content", "pathlib.Path(fname).stem + '.csv' as an uninterpreted function of the file name",
          "A-POOL in cli(): Pool(n) / starmap(function, tasks, chunksize) recorded, not executed; os.cpu_count() >= 2 and --nproc >= 1 are preconditions (otherwise the command fails before any file is processed)",
-         "click delivers the options as the keyword dictionary of cli() (decorators not modelled)"],
+         "click delivers the options as the keyword dictionary of cli() (decorators not modelled)",
+         "A-POOL (results): starmap hands back one result per task in task order; 'the pipeline raises for this file' is a named condition of the file name (FAILS), as is 'the figure cannot be drawn' in the worker",
+         "a filtering comprehension [x for x in results if cond] is *some* sub-sequence: its length is 0 exactly when no element satisfies cond, its elements are not modelled"],
  "C20": ["matplotlib Axes and pandas as recorders of what they are handed", "plot_single_panel_hvsr_curves may raise ValueError at any call (nondeterministic) in the pre/post proof", "A-NP-WHERE for the enumeration of selected rows", "statistics accessors opaque functions of (object, distribution, n) (contracts: C05, C08, C11)",
          "np.meshgrid / np.vstack by their definition (A-NP-ELEM); mean_curve_by_azimuth / mean_curve_peak_by_azimuth opaque tables of the distribution; three azimuths; colour bar and tick cosmetics opaque"],
 }
